@@ -1,4 +1,5 @@
 import SpVerif.Model.Srv1
+import SpVerif.Proofs.Srv1
 import SpVerif.Props.C03
 /-!
 # C15 — Request IDs and service-1 verification reports identify the telecommand exactly
@@ -26,15 +27,6 @@ private theorem beNat_four (a b c d : UInt8) :
     beNat [a, b, c, d] = ((a.toNat * 256 + b.toNat) * 256 + c.toNat) * 256 + d.toNat := by
   simp [beNat]
 
-private theorem dr_g (x y : Nat) (hx : x < 256) (hy : y < 256) :
-    ¬ 16383 < (x * 256 + y) / 65536 * 65536 + (x * 256 + y) % 16384 := by omega
-private theorem dr1 (x y : Nat) (hx : x < 256) (hy : y < 256) : (x * 256 + y) / 8192 % 8 = x / 32 := by omega
-private theorem dr2 (x y : Nat) (hy : y < 256) : (x * 256 + y) / 4096 % 2 = x / 16 % 2 := by omega
-private theorem dr3 (x y : Nat) (hy : y < 256) : (x * 256 + y) / 2048 % 2 = x / 8 % 2 := by omega
-private theorem dr4 (x y : Nat) (hy : y < 256) : (x * 256 + y) % 2048 = x % 8 * 256 + y := by omega
-private theorem dr5 (x y : Nat) (hx : x < 256) (hy : y < 256) : (x * 256 + y) / 16384 % 4 = x / 64 := by omega
-private theorem dr6 (x y : Nat) (hx : x < 256) (hy : y < 256) :
-    (x * 256 + y) / 65536 * 65536 + (x * 256 + y) % 16384 = x % 64 * 256 + y := by omega
 private theorem er0 (x y : Nat) (hx : x < 256) (hy : y < 256) :
     x / 32 * 32 + x / 16 % 2 * 16 + x / 8 % 2 * 8 + (x % 8 * 256 + y) / 256 = x := by omega
 private theorem er1 (x y : Nat) (hy : y < 256) : (x % 8 * 256 + y) % 256 = y := by omega
@@ -70,29 +62,11 @@ theorem C15_reqid_u32 (r : ReqId) (wf : WFReq r) :
     exact u32_of_octets r.version r.pid.ptype r.pid.shf r.pid.apid r.psc.flags r.psc.count hv ht hs ha hf hc
   · simp only [ReqId.asU32, ReqId.word0, PacketId.raw, Psc.raw, pidRaw, pscRaw]; omega
 
-private theorem req_unpack_eq (d : Bytes) (h4 : 4 ≤ d.length) :
-    ReqId.unpack d = .ok ⟨d[0].toNat / 32, ⟨d[0].toNat / 16 % 2, d[0].toNat / 8 % 2, d[0].toNat % 8 * 256 + d[1].toNat⟩,
-      ⟨d[2].toNat / 64, d[2].toNat % 64 * 256 + d[3].toNat⟩⟩ := by
-  have hl : ¬ d.length < 4 := by omega
-  have b0 := toNat_lt d[0]
-  have b1 := toNat_lt d[1]
-  have b2 := toNat_lt d[2]
-  have b3 := toNat_lt d[3]
-  have b1' := toNat_lt d[0+1]
-  have b3' := toNat_lt d[2+1]
-  unfold ReqId.unpack
-  simp only [hl, ↓reduceIte, bind, Except.bind, pure, Except.pure,
-    unpackBE2_slice d 0 (by omega), unpackBE2_slice d 2 (by omega), Psc.fromRaw, Psc.new_nat]
-  simp only [dr_g _ _ b2 b3', ↓reduceIte, PacketId.fromRaw, dr1 _ _ b0 b1', dr2 _ _ b1', dr3 _ _ b1', dr4 _ _ b1',
-    dr5 _ _ b2 b3', dr6 _ _ b2 b3']
-  have g2 : ¬ 16383 < d[2].toNat % 64 * 256 + d[2+1].toNat := by omega
-  simp [g2]
-
 /-- **decode ∘ encode = id** for request ids, with any octets following -/
 theorem C15_reqid_roundtrip (r : ReqId) (wf : WFReq r) (rest : Bytes) :
     ReqId.unpack (Spec.reqOctets r ++ rest) = .ok r := by
   obtain ⟨hv, ht, hs, ha, hf, hc⟩ := wf
-  rw [req_unpack_eq _ (by simp [Spec.reqOctets])]
+  rw [ReqId.unpack_eq _ (by simp [Spec.reqOctets])]
   simp only [Spec.reqOctets, List.cons_append, List.getElem_cons_zero, List.getElem_cons_succ, u8_toNat]
   cases r with
   | mk v p q =>
@@ -121,7 +95,7 @@ theorem C15_reqid_decode_encode (b : Bytes) (h4 : 4 ≤ b.length) :
     simp only [Spec.reqOctets, er0 _ _ b0 b1, er1 _ _ b1, er2 _ _ b2 b3, er3 _ _ b3, u8_toNat_self]
     match b, h4 with
     | x0 :: x1 :: x2 :: x3 :: r, _ => simp
-  refine ⟨_, req_unpack_eq b h4, wf, ?_, ?_⟩
+  refine ⟨_, ReqId.unpack_eq b h4, wf, ?_, ?_⟩
   · rw [req_pack _ wf, hoct]
   · rw [← (C15_reqid_u32 _ wf).1, hoct]
 
@@ -150,8 +124,569 @@ theorem C15_reqid_eq (a b : ReqId) (wa : WFReq a) (wb : WFReq b) :
 theorem C15_reqid_documented (d : Bytes) : Documented (ReqId.unpack d) := by
   by_cases h : d.length < 4
   · simp [ReqId.unpack, h, throw, throwThe, MonadExceptOf.throw, bind, Except.bind]; exact Documented.err rfl
-  · rw [req_unpack_eq d (by omega)]; exact Documented.ok _
+  · rw [ReqId.unpack_eq d (by omega)]; exact Documented.ok _
 
-example : WFReq ⟨5, ⟨1, 1, 0x7AB⟩, ⟨2, 0x2BCD⟩⟩ := by unfold WFReq; decide
+instance (r : ReqId) : Decidable (WFReq r) := by unfold WFReq; infer_instance
 
+example : WFReq ⟨5, ⟨1, 1, 0x7AB⟩, ⟨2, 0x2BCD⟩⟩ := by decide
+
+/-! ## PacketFieldEnum (step id, error code) -/
+
+/-- declared width of a field in octets: `check_pfc(pfc)` = Python's `round(pfc / 8)` -/
+def fieldWidth (f : Pfe) : Nat := roundDiv8 f.pfc
+
+/-- well-formed field: the PFC rounds to 1, 2, 4 or 8 octets and the value fits that many octets -/
+def WFField (f : Pfe) : Prop := Width (fieldWidth f) ∧ f.val < 256 ^ fieldWidth f
+
+/-- the PFC is exactly 8 × width (what a decoder that is told the width reconstructs) -/
+def ExactField (f : Pfe) : Prop := f.pfc = fieldWidth f * 8
+
+instance (f : Pfe) : Decidable (WFField f) := by unfold WFField; infer_instance
+instance (f : Pfe) : Decidable (ExactField f) := by unfold ExactField; infer_instance
+
+/-- a field is its value, big-endian, on its declared width -/
+def Spec.fieldOctets (f : Pfe) : Bytes := beBytes (fieldWidth f) f.val
+
+theorem fieldOctets_length (f : Pfe) : (Spec.fieldOctets f).length = fieldWidth f := by
+  simp [Spec.fieldOctets]
+
+theorem reqOctets_length (r : ReqId) : (Spec.reqOctets r).length = 4 := rfl
+
+/-- **`check_pfc`**: returns the rounded width iff it is 1, 2, 4 or 8, ValueError otherwise; the
+    width is within half an octet of `pfc / 8` (ties to even); byte-aligned PFCs give `pfc / 8` -/
+theorem C15_check_pfc (pfc : Nat) :
+    (Width (roundDiv8 pfc) → checkPfc pfc = .ok (roundDiv8 pfc)) ∧
+    (¬ Width (roundDiv8 pfc) → checkPfc pfc = .error .value) ∧
+    (8 * roundDiv8 pfc ≤ pfc + 4 ∧ pfc ≤ 8 * roundDiv8 pfc + 4) ∧
+    (∀ w, pfc = w * 8 → roundDiv8 pfc = w) := by
+  refine ⟨fun h => ?_, fun h => ?_, ⟨(roundDiv8_spec pfc).1, (roundDiv8_spec pfc).2.1⟩, fun w hw => ?_⟩
+  · rw [checkPfc_eq]; simp [h]
+  · rw [checkPfc_eq]; simp [h]
+  · rw [hw]; exact roundDiv8_mul w
+
+/-- **a field packs to its value, big-endian, on its declared width**; the constructor accepts it
+    and `len()` is the width -/
+theorem C15_field_pack (f : Pfe) (wf : WFField f) :
+    Pfe.new f.pfc f.val = .ok f ∧ f.pack = .ok (Spec.fieldOctets f) ∧ f.len = .ok (fieldWidth f) ∧
+    (Spec.fieldOctets f).length = fieldWidth f ∧ beNat (Spec.fieldOctets f) = f.val := by
+  obtain ⟨hw, hv⟩ := wf
+  unfold fieldWidth at hw hv
+  refine ⟨?_, ?_, ?_, fieldOctets_length f, ?_⟩
+  · rw [Pfe.new_eq]; simp [hw]
+  · rw [Pfe.pack_eq]; simp [hw, hv, Spec.fieldOctets, fieldWidth]
+  · simp only [Pfe.len]; rw [checkPfc_eq]; simp [hw, fieldWidth]
+  · exact beNat_beBytes _ _ hv
+
+/-- a PFC that does not round to 1, 2, 4 or 8 octets is refused by the constructor, by `pack` and by
+    the decoder; a value that does not fit its width is refused by `pack` (ValueError each) -/
+theorem C15_field_refuse (f : Pfe) :
+    (¬ Width (fieldWidth f) → Pfe.new f.pfc f.val = .error .value ∧ f.pack = .error .value ∧
+        ∀ d, Pfe.unpack d f.pfc = .error .value) ∧
+    (Width (fieldWidth f) → 256 ^ fieldWidth f ≤ f.val → f.pack = .error .value) := by
+  unfold fieldWidth
+  refine ⟨fun h => ⟨?_, ?_, fun d => ?_⟩, fun hw hv => ?_⟩
+  · rw [Pfe.new_eq]; simp [h]
+  · rw [Pfe.pack_eq]; simp [h]
+  · rw [Pfe.unpack_eq]; simp [h]
+  · have : ¬ f.val < 256 ^ roundDiv8 f.pfc := by omega
+    rw [Pfe.pack_eq]; simp [hw, this]
+
+/-- **decode ∘ encode = id** for a field, whatever follows it -/
+theorem C15_field_roundtrip (f : Pfe) (wf : WFField f) (ex : ExactField f) (rest : Bytes) :
+    Pfe.unpack (Spec.fieldOctets f ++ rest) (fieldWidth f * 8) = .ok f := by
+  obtain ⟨hw, hv⟩ := wf
+  rw [Spec.fieldOctets, Pfe.unpack_beBytes hw _ hv rest, ← ex]
+
+/-- **encode ∘ decode = the first `w` octets**: with a width `w` ∈ {1,2,4,8} the decoder is total on
+    at least `w` octets, and its result is well formed and re-packs to exactly those octets -/
+theorem C15_field_decode_encode (d : Bytes) (w : Nat) (hw : Width w) (hl : w ≤ d.length) :
+    ∃ f, Pfe.unpack d (w * 8) = .ok f ∧ WFField f ∧ ExactField f ∧ fieldWidth f = w ∧
+      f.pack = .ok (d.take w) := by
+  have hlen : (d.take w).length = w := by simp; omega
+  have hlt : beNat (d.take w) < 256 ^ w := by have := beNat_lt (d.take w); rwa [hlen] at this
+  refine ⟨⟨w * 8, beNat (d.take w)⟩, ?_, ?_, ?_, ?_, ?_⟩
+  · rw [Pfe.unpack_eq, roundDiv8_mul]; simp [hw, hl]
+  · simp only [WFField, fieldWidth, roundDiv8_mul]; exact ⟨hw, hlt⟩
+  · simp [ExactField, fieldWidth, roundDiv8_mul]
+  · simp [fieldWidth, roundDiv8_mul]
+  · rw [Pfe.pack_eq]
+    simp only [roundDiv8_mul, hw, hlt, ↓reduceIte]
+    have := beBytes_beNat (d.take w)
+    rw [hlen] at this
+    rw [this]
+
+/-- fewer octets than the width: ValueError; and for every input only documented errors -/
+theorem C15_field_short (d : Bytes) (pfc : Nat) (h : d.length < roundDiv8 pfc) :
+    Pfe.unpack d pfc = .error .value ∧ ∀ d' pfc', Documented (Pfe.unpack d' pfc') := by
+  refine ⟨?_, Pfe.unpack_documented⟩
+  have : ¬ roundDiv8 pfc ≤ d.length := by omega
+  rw [Pfe.unpack_eq]; split <;> simp [this]
+
+/-- `PacketFieldEnum.__eq__` is equality of (pfc, value) -/
+theorem C15_field_eq (a b : Pfe) : a.beq b = true ↔ a = b := by
+  cases a; cases b; simp [Pfe.beq]
+
+example : WFField ⟨16, 0xBEEF⟩ ∧ ExactField ⟨16, 0xBEEF⟩ ∧ WFField ⟨12, 7⟩ ∧ ¬ ExactField ⟨12, 7⟩ := by decide
+
+/-! ## FailureNotice -/
+
+def WFNotice (n : FailureNotice) : Prop := WFField n.code
+
+/-- a failure notice is the error code on its declared width, then the failure data -/
+def Spec.noticeOctets (n : FailureNotice) : Bytes := Spec.fieldOctets n.code ++ n.data
+
+theorem C15_notice_pack (n : FailureNotice) (wf : WFNotice n) :
+    n.pack = .ok (Spec.noticeOctets n) ∧ n.len = .ok (Spec.noticeOctets n).length := by
+  obtain ⟨_, hp, hl, _, _⟩ := C15_field_pack n.code wf
+  simp [FailureNotice.pack, FailureNotice.len, hp, hl, bind, Except.bind, pure, Except.pure,
+    Spec.noticeOctets, fieldOctets_length]
+
+theorem notice_unpack (n : FailureNotice) (wf : WFNotice n) (ex : ExactField n.code) (k : Nat)
+    (hk : n.data.length ≤ k) :
+    FailureNotice.unpack (Spec.noticeOctets n) (fieldWidth n.code) (some k) = .ok n := by
+  unfold FailureNotice.unpack
+  rw [Spec.noticeOctets, C15_field_roundtrip n.code wf ex n.data]
+  simp only [bind, Except.bind, pure, Except.pure]
+  have hs : slice (Spec.fieldOctets n.code ++ n.data) (fieldWidth n.code) (fieldWidth n.code + k) = n.data := by
+    have hl := fieldOctets_length n.code
+    simp only [slice]
+    rw [List.take_of_length_le (by simp [hl]; omega)]
+    exact List.drop_left' hl
+  rw [hs]
+
+/-- **decode ∘ encode = id** for a failure notice: with the default "all remaining octets", and with
+    an explicit data length when further octets follow -/
+theorem C15_notice_roundtrip (n : FailureNotice) (wf : WFNotice n) (ex : ExactField n.code) :
+    FailureNotice.unpack (Spec.noticeOctets n) (fieldWidth n.code) none = .ok n ∧
+    ∀ rest, FailureNotice.unpack (Spec.noticeOctets n ++ rest) (fieldWidth n.code) (some n.data.length) = .ok n := by
+  constructor
+  · have := notice_unpack n wf ex ((Spec.noticeOctets n).length - fieldWidth n.code) (by
+      simp [Spec.noticeOctets, fieldOctets_length])
+    simpa [FailureNotice.unpack] using this
+  · intro rest
+    unfold FailureNotice.unpack
+    have e : Spec.noticeOctets n ++ rest = Spec.fieldOctets n.code ++ (n.data ++ rest) := by
+      simp [Spec.noticeOctets]
+    rw [e, C15_field_roundtrip n.code wf ex]
+    simp only [bind, Except.bind, pure, Except.pure]
+    have hl := fieldOctets_length n.code
+    have hs : slice (Spec.fieldOctets n.code ++ (n.data ++ rest)) (fieldWidth n.code)
+        (fieldWidth n.code + n.data.length) = n.data := by
+      rw [← List.append_assoc, ← hl]
+      exact slice_eq_of_append _ _ _
+    rw [hs]
+
+/-- `FailureNotice.__eq__` compares by value (error code field and failure data) -/
+theorem C15_notice_eq (a b : FailureNotice) : a.beq b = true ↔ a = b := by
+  cases a; cases b; simp [FailureNotice.beq, C15_field_eq]
+
+/-! ## Verification parameters and their match with the subservice -/
+
+def WFParams (p : VParams) : Prop :=
+  WFReq p.reqId ∧ (∀ s, p.stepId = some s → WFField s) ∧ (∀ n, p.failure = some n → WFNotice n)
+
+/-- all PFCs are exactly 8 × width -/
+def ExactParams (p : VParams) : Prop :=
+  (∀ s, p.stepId = some s → ExactField s) ∧ (∀ n, p.failure = some n → ExactField n.code)
+
+/-- the parameter set fits the subservice: a failure notice exactly for the failure reports (even
+    subservices), a step id exactly for the two step reports (5 and 6) -/
+def Matches (p : VParams) (sub : Nat) : Prop :=
+  (p.failure.isSome = true ↔ sub % 2 = 0) ∧ (p.stepId.isSome = true ↔ (sub = 5 ∨ sub = 6))
+
+instance (p : VParams) (sub : Nat) : Decidable (Matches p sub) := by unfold Matches; infer_instance
+
+/-- **source data of a report**: request id ‖ step id (if any) ‖ error code ‖ failure data (if any) -/
+def Spec.sourceData (p : VParams) : Bytes :=
+  Spec.reqOctets p.reqId ++
+    (match p.stepId with | none => [] | some s => Spec.fieldOctets s) ++
+    (match p.failure with | none => [] | some n => Spec.noticeOctets n)
+
+theorem C15_params_pack (p : VParams) (wf : WFParams p) :
+    p.pack = .ok (Spec.sourceData p) ∧ p.len = .ok (Spec.sourceData p).length := by
+  obtain ⟨wr, ws, wn⟩ := wf
+  obtain ⟨r, step, fail⟩ := p
+  simp only at wr ws wn
+  cases step with
+  | none =>
+    cases fail with
+    | none =>
+      simp [VParams.pack, VParams.len, req_pack r wr, bind, Except.bind, pure, Except.pure, Spec.sourceData,
+        reqOctets_length]
+    | some n =>
+      obtain ⟨hp, hl⟩ := C15_notice_pack n (wn n rfl)
+      simp [VParams.pack, VParams.len, req_pack r wr, hp, hl, bind, Except.bind, pure, Except.pure,
+        Spec.sourceData, reqOctets_length]
+  | some s =>
+    obtain ⟨_, sp, sl, _, _⟩ := C15_field_pack s (ws s rfl)
+    cases fail with
+    | none =>
+      simp [VParams.pack, VParams.len, req_pack r wr, sp, sl, bind, Except.bind, pure, Except.pure,
+        Spec.sourceData, reqOctets_length, fieldOctets_length]
+    | some n =>
+      obtain ⟨hp, hl⟩ := C15_notice_pack n (wn n rfl)
+      simp [VParams.pack, VParams.len, req_pack r wr, sp, sl, hp, hl, bind, Except.bind, pure, Except.pure,
+        Spec.sourceData, reqOctets_length, fieldOctets_length]
+      omega
+
+/-- `verify_against_subservice` accepts exactly the matching parameter sets (for every subservice
+    number, not only 1..8) and refuses all others with `InvalidVerifParams` -/
+theorem verify_iff (p : VParams) (sub : Nat) :
+    (Matches p sub → p.verify sub = .ok ()) ∧ (¬ Matches p sub → p.verify sub = .error .verifParams) := by
+  obtain ⟨r, step, fail⟩ := p
+  unfold Matches VParams.verify
+  cases step <;> cases fail <;> simp <;> (by_cases h2 : sub % 2 = 0 <;> simp [h2] <;> omega)
+
+/-! ## Service-1 reports -/
+
+/-- the telemetry packet of a report: service 1, the given subservice, message counter 0, source
+    data as prescribed, data length field = 7 + |timestamp| + |source data| + 1 -/
+def Spec.reportTm (apid sub count ver ref dst : Nat) (ts : Bytes) (p : VParams) : Tm :=
+  ⟨⟨ver, 0, 1, apid, 3, count, 7 + ts.length + (Spec.sourceData p).length + 1⟩, ⟨ref, 1, sub, 0, dst, ts⟩,
+   Spec.sourceData p⟩
+
+/-- the report's octets: the PUS-C telemetry layout of C03 around the prescribed source data -/
+def Spec.reportOctets (apid sub count ver ref dst : Nat) (ts : Bytes) (p : VParams) : Bytes :=
+  C03.Spec.octets (Spec.reportTm apid sub count ver ref dst ts p)
+
+theorem reportTm_wf (apid sub count ver ref dst : Nat) (ts : Bytes) (p : VParams)
+    (ha : apid < 2048) (hc : count < 16384) (hb : sub < 256) (hv : ver < 8) (hr : ref < 16) (hd : dst < 65536)
+    (hl : ts.length + (Spec.sourceData p).length ≤ 65527) :
+    C03.WF (Spec.reportTm apid sub count ver ref dst ts p) := by
+  refine ⟨⟨?_, ?_, ?_, ?_, ?_, ?_, ?_⟩, ⟨?_, ?_, ?_, ?_, ?_⟩, ?_⟩ <;> simp only [Spec.reportTm] <;> omega
+
+private theorem tm_new_s1 (apid sub count ver ref dst : Nat) (ts : Bytes)
+    (ha : apid < 2048) (hc : count < 16384) (hb : sub < 256) (hts : ts.length ≤ 65527) :
+    Tm.new 1 (sub : Int) ts [] (apid : Int) (count : Int) 0 ref dst ver =
+      .ok ⟨⟨ver, 0, 1, apid, 3, count, 7 + ts.length + 1⟩, ⟨ref, 1, sub, 0, dst, ts⟩, []⟩ := by
+  have := C03.C03_new 1 sub apid count 0 ref dst ver ts [] ha hc (by omega) hb (by omega) (by simpa using hts)
+  simpa using this
+
+/-- **every report built for a request id carries, in its source data, that request id, then the
+    step id (step reports), then error code and failure data (failure reports), each on its
+    declared width** — and the packed report is the C03 telemetry layout around that source data.
+    For every subservice, every width combination, every timestamp. -/
+theorem C15_report_layout (apid sub count ver ref dst : Nat) (ts : Bytes) (p : VParams)
+    (ha : apid < 2048) (hc : count < 16384) (hb : sub < 256) (hts : ts.length ≤ 65527)
+    (wp : WFParams p) (hm : Matches p sub) :
+    S1Tm.new (apid : Int) (sub : Int) ts (some p) (count : Int) ver ref dst
+      = .ok ⟨Spec.reportTm apid sub count ver ref dst ts p, p⟩ ∧
+    (Spec.reportTm apid sub count ver ref dst ts p).sourceData = Spec.sourceData p ∧
+    (ver < 8 → ref < 16 → dst < 65536 → ts.length + (Spec.sourceData p).length ≤ 65527 →
+      (S1Tm.mk (Spec.reportTm apid sub count ver ref dst ts p) p).pack
+        = .ok (Spec.reportOctets apid sub count ver ref dst ts p) ∧
+      (Spec.reportOctets apid sub count ver ref dst ts p).length = 13 + ts.length + (Spec.sourceData p).length + 2) := by
+  refine ⟨?_, rfl, fun hv hr hd hl => ⟨?_, ?_⟩⟩
+  · unfold S1Tm.new
+    rw [tm_new_s1 apid sub count ver ref dst ts ha hc hb hts]
+    simp only [bind, Except.bind, Int.toNat_natCast, (verify_iff p sub).1 hm, (C15_params_pack p wp).1, pure,
+      Except.pure, Tm.setTmData, dataLen, Spec.reportTm]
+  · exact C03.C03_pack_exact _ (reportTm_wf apid sub count ver ref dst ts p ha hc hb hv hr hd hl)
+  · have := (C03.C03_len _ (reportTm_wf apid sub count ver ref dst ts p ha hc hb hv hr hd hl)).1
+    rw [Spec.reportOctets, this]
+    simp only [Tm.packetLen, Sph.packetLen, Spec.reportTm]; omega
+
+/-- **the eight `create_*_tm` helpers put the first four octets of the telecommand's space packet
+    header at the start of the source data** (sequence count, version, time reference and
+    destination id of the report are 0) -/
+theorem C15_create_layout (sub apid : Nat) (tc : Sph) (step : Option Pfe) (fn : Option FailureNotice) (ts : Bytes)
+    (ha : apid < 2048) (hb : sub < 256) (hts : ts.length ≤ 65527) (wtc : C01.WF tc)
+    (ws : ∀ s, step = some s → WFField s) (wn : ∀ n, fn = some n → WFNotice n)
+    (hm : Matches ⟨ReqId.fromSph tc, step, fn⟩ sub) :
+    ∃ s, create sub (apid : Int) tc step fn ts = .ok s ∧
+      s.tm.sourceData = (C01.Spec.octets tc).take 4 ++
+        (match step with | none => [] | some s => Spec.fieldOctets s) ++
+        (match fn with | none => [] | some n => Spec.noticeOctets n) ∧
+      s.tm.sec.service = 1 ∧ s.tm.sec.subservice = sub ∧ s.params = ⟨ReqId.fromSph tc, step, fn⟩ := by
+  obtain ⟨hv, ht, hs, hap, hf, hc, _⟩ := wtc
+  have wp : WFParams ⟨ReqId.fromSph tc, step, fn⟩ := ⟨⟨hv, ht, hs, hap, hf, hc⟩, ws, wn⟩
+  have := (C15_report_layout apid sub 0 0 0 0 ts _ ha (by omega) hb hts wp hm).1
+  have hreq : Spec.reqOctets (ReqId.fromSph tc) = (C01.Spec.octets tc).take 4 := by
+    simp [Spec.reqOctets, ReqId.fromSph, C01.Spec.octets]
+  refine ⟨_, this, ?_, rfl, rfl, rfl⟩
+  rw [← hreq]
+  cases step <;> cases fn <;> rfl
+
+/-- **parameter sets that do not match the subservice are refused** with `InvalidVerifParams` (for
+    otherwise valid constructor arguments; with invalid ones the constructor fails before) -/
+theorem C15_refuse (apid sub count ver ref dst : Nat) (ts : Bytes) (p : VParams)
+    (ha : apid < 2048) (hc : count < 16384) (hb : sub < 256) (hts : ts.length ≤ 65527)
+    (hm : ¬ Matches p sub) :
+    p.verify sub = .error .verifParams ∧
+    S1Tm.new (apid : Int) (sub : Int) ts (some p) (count : Int) ver ref dst = .error .verifParams := by
+  refine ⟨(verify_iff p sub).2 hm, ?_⟩
+  unfold S1Tm.new
+  rw [tm_new_s1 apid sub count ver ref dst ts ha hc hb hts]
+  simp only [bind, Except.bind, Int.toNat_natCast, (verify_iff p sub).2 hm]
+
+/-- … and with arbitrary (also invalid) other arguments a mismatching set never yields a report -/
+theorem C15_refuse_any (apid sub count : Int) (ver ref dst : Nat) (ts : Bytes) (p : VParams)
+    (hm : ¬ Matches p sub.toNat) (s : S1Tm) :
+    S1Tm.new apid sub ts (some p) count ver ref dst ≠ .ok s := by
+  unfold S1Tm.new
+  cases Tm.new 1 sub ts [] apid count 0 ref dst ver with
+  | error e => simp [bind, Except.bind]
+  | ok tm => simp [bind, Except.bind, (verify_iff p sub.toNat).2 hm]
+
+private theorem req_slice (r : ReqId) (wf : WFReq r) (x y : Bytes) :
+    ReqId.unpack (slice (Spec.reqOctets r ++ x ++ y) 0 4) = .ok r := by
+  have : slice (Spec.reqOctets r ++ x ++ y) 0 4 = Spec.reqOctets r ++ [] := by
+    simp [slice, Spec.reqOctets]
+  rw [this]; exact C15_reqid_roundtrip r wf []
+
+/-- the decoder of the source data inverts the prescribed layout when it is told the widths used -/
+theorem unpackRaw_spec (tm : Tm) (p : VParams) (sb eb : Nat)
+    (hsrc : tm.sourceData = Spec.sourceData p) (hsub : 1 ≤ tm.sec.subservice ∧ tm.sec.subservice ≤ 8)
+    (wp : WFParams p) (ex : ExactParams p) (hm : Matches p tm.sec.subservice)
+    (hsb : ∀ s, p.stepId = some s → sb = fieldWidth s)
+    (heb : ∀ n, p.failure = some n → eb = fieldWidth n.code) :
+    unpackRaw tm sb eb = .ok ⟨tm, p⟩ := by
+  obtain ⟨wr, ws, wn⟩ := wp
+  obtain ⟨exs, exn⟩ := ex
+  obtain ⟨r, step, fail⟩ := p
+  simp only at wr ws wn exs exn hsb heb
+  obtain ⟨hm1, hm2⟩ := hm
+  have h4 : ¬ (Spec.sourceData ⟨r, step, fail⟩).length < 4 := by
+    simp [Spec.sourceData, reqOctets_length]
+  unfold unpackRaw
+  simp only [hsrc, h4, ↓reduceIte]
+  cases step with
+  | none =>
+    cases fail with
+    | none =>
+      simp only [Option.isSome_none, Bool.false_eq_true, false_iff] at hm1 hm2
+      have h1 : tm.sec.subservice = 1 ∨ tm.sec.subservice = 3 ∨ tm.sec.subservice = 7 := by omega
+      have h5 : ¬ tm.sec.subservice = 5 := by omega
+      simp only [Spec.sourceData, req_slice r wr, bind, Except.bind, hm1, h5, h1, ↓reduceIte, not_true_eq_false,
+        pure, Except.pure]
+    | some n =>
+      simp only [Option.isSome_none, Option.isSome_some, Bool.false_eq_true, false_iff, true_iff] at hm1 hm2
+      have hE := heb n rfl
+      subst hE
+      have h6 : ¬ tm.sec.subservice = 6 := by omega
+      have h1 : tm.sec.subservice = 2 ∨ tm.sec.subservice = 4 ∨ tm.sec.subservice = 8 := by omega
+      have hlen : (Spec.sourceData ⟨r, none, some n⟩).length = 4 + (fieldWidth n.code + n.data.length) := by
+        simp [Spec.sourceData, Spec.noticeOctets, reqOctets_length, fieldOctets_length]
+      have hg : ¬ (4 + (fieldWidth n.code + n.data.length) < fieldWidth n.code) := by omega
+      have hdrop : (Spec.sourceData ⟨r, none, some n⟩).drop 4 = Spec.noticeOctets n := by
+        simp only [Spec.sourceData, List.append_nil]
+        exact List.drop_left' (reqOctets_length r)
+      simp only [hlen, hdrop, hg, h6, h1, hm1, ↓reduceIte, ne_eq, not_false_eq_true, not_true_eq_false,
+        true_and, and_false, bind, Except.bind, pure, Except.pure]
+      simp only [Spec.sourceData, req_slice r wr]
+      rw [notice_unpack n (wn n rfl) (exn n rfl) _ (by omega)]
+  | some s =>
+    have hS := hsb s rfl
+    subst hS
+    cases fail with
+    | none =>
+      simp only [Option.isSome_none, Option.isSome_some, Bool.false_eq_true, false_iff, true_iff] at hm1 hm2
+      have h5 : tm.sec.subservice = 5 := by omega
+      have hsl : slice (Spec.sourceData ⟨r, some s, none⟩) 4 (4 + fieldWidth s) = Spec.fieldOctets s := by
+        simp only [Spec.sourceData]
+        rw [← reqOctets_length r, ← fieldOctets_length s]
+        exact slice_eq_of_append _ _ _
+      have hu : Pfe.unpack (Spec.fieldOctets s) (fieldWidth s * 8) = .ok s := by
+        simpa using C15_field_roundtrip s (ws s rfl) (exs s rfl) []
+      simp only [hsl, hu, hm1, ↓reduceIte, bind, Except.bind, pure, Except.pure]
+      simp only [Spec.sourceData, req_slice r wr, h5, ↓reduceIte]
+    | some n =>
+      simp only [Option.isSome_some, true_iff] at hm1 hm2
+      have hE := heb n rfl
+      subst hE
+      have h6 : tm.sec.subservice = 6 := by omega
+      have hlen : (Spec.sourceData ⟨r, some s, some n⟩).length
+          = 4 + fieldWidth s + (fieldWidth n.code + n.data.length) := by
+        simp [Spec.sourceData, Spec.noticeOctets, reqOctets_length, fieldOctets_length]; omega
+      have hg : ¬ (4 + fieldWidth s + (fieldWidth n.code + n.data.length) < fieldWidth n.code + fieldWidth s) := by omega
+      have hdrop4 : (Spec.sourceData ⟨r, some s, some n⟩).drop 4 = Spec.fieldOctets s ++ Spec.noticeOctets n := by
+        simp only [Spec.sourceData, List.append_assoc]
+        exact List.drop_left' (reqOctets_length r)
+      have hdrop : (Spec.sourceData ⟨r, some s, some n⟩).drop (4 + fieldWidth s) = Spec.noticeOctets n := by
+        simp only [Spec.sourceData]
+        exact List.drop_left' (by simp [reqOctets_length, fieldOctets_length])
+      simp only [hlen, hdrop4, hdrop, hg, h6, hm1, ↓reduceIte, ne_eq, not_true_eq_false, false_and,
+        bind, Except.bind, pure, Except.pure, C15_field_roundtrip s (ws s rfl) (exs s rfl)]
+      simp only [Spec.sourceData, req_slice r wr]
+      rw [notice_unpack n (wn n rfl) (exn n rfl) _ (by omega)]
+
+/-- **decoding the packed report with matching widths returns the same request id, step id, error
+    code and failure data** (and the same telemetry fields): the decoded object *is* the original —
+    for every subservice 1..8, every width combination, every timestamp, whatever octets follow.
+    A width the report does not use (step width for non-step reports, error-code width for success
+    reports) may be anything. -/
+theorem C15_report_roundtrip (apid sub count ver ref dst : Nat) (ts : Bytes) (p : VParams)
+    (ha : apid < 2048) (hc : count < 16384) (hsub : 1 ≤ sub ∧ sub ≤ 8) (hv : ver < 8) (hr : ref < 16)
+    (hd : dst < 65536) (hl : ts.length + (Spec.sourceData p).length ≤ 65527)
+    (wp : WFParams p) (ex : ExactParams p) (hm : Matches p sub) (sb eb : Nat)
+    (hsb : ∀ s, p.stepId = some s → sb = fieldWidth s)
+    (heb : ∀ n, p.failure = some n → eb = fieldWidth n.code) (rest : Bytes) :
+    S1Tm.unpack (Spec.reportOctets apid sub count ver ref dst ts p ++ rest) ts.length sb eb
+      = .ok ⟨Spec.reportTm apid sub count ver ref dst ts p, p⟩ := by
+  have wf := reportTm_wf apid sub count ver ref dst ts p ha hc (by omega) hv hr hd hl
+  have h := C03.C03_roundtrip _ wf rest
+  unfold S1Tm.unpack
+  have e : (Spec.reportTm apid sub count ver ref dst ts p).sec.timestamp.length = ts.length := rfl
+  rw [e] at h
+  simp only [Spec.reportOctets, h, bind, Except.bind]
+  exact unpackRaw_spec _ p sb eb rfl hsub wp ex hm hsb heb
+
+/-- … hence **it re-packs identically** … -/
+theorem C15_report_repack (apid sub count ver ref dst : Nat) (ts : Bytes) (p : VParams)
+    (ha : apid < 2048) (hc : count < 16384) (hsub : 1 ≤ sub ∧ sub ≤ 8) (hv : ver < 8) (hr : ref < 16)
+    (hd : dst < 65536) (hl : ts.length + (Spec.sourceData p).length ≤ 65527)
+    (wp : WFParams p) (ex : ExactParams p) (hm : Matches p sub) (sb eb : Nat)
+    (hsb : ∀ s, p.stepId = some s → sb = fieldWidth s)
+    (heb : ∀ n, p.failure = some n → eb = fieldWidth n.code) (rest : Bytes) :
+    (S1Tm.unpack (Spec.reportOctets apid sub count ver ref dst ts p ++ rest) ts.length sb eb >>= S1Tm.pack)
+      = .ok (Spec.reportOctets apid sub count ver ref dst ts p) := by
+  rw [C15_report_roundtrip apid sub count ver ref dst ts p ha hc hsub hv hr hd hl wp ex hm sb eb hsb heb rest]
+  exact C03.C03_pack_exact _ (reportTm_wf apid sub count ver ref dst ts p ha hc (by omega) hv hr hd hl)
+
+private theorem optBeq_iff {α : Type} (f : α → α → Bool) (hf : ∀ a b, f a b = true ↔ a = b) (x y : Option α) :
+    optBeq f x y = true ↔ x = y := by
+  cases x <;> cases y <;> simp [optBeq, hf]
+
+private theorem sph_octets_inj (a b : Sph) (wa : C01.WF a) (wb : C01.WF b)
+    (h : C01.Spec.octets a = C01.Spec.octets b) : a = b := by
+  have ha := C01.C01_unpack_pack a wa []
+  have hb := C01.C01_unpack_pack b wb []
+  rw [h, hb] at ha
+  exact (Except.ok.inj ha).symm
+
+private theorem sec_octets_inj (a b : TmSec) (wa : C03.WFSec a) (wb : C03.WFSec b)
+    (h : C03.Spec.sec a = C03.Spec.sec b) : a = b := by
+  have hlen : a.timestamp.length = b.timestamp.length := by
+    have := congrArg List.length h
+    simp [C03.Spec.sec, C03.Spec.secFixed] at this
+    exact this
+  have ha := C03.sec_unpack_spec a wa []
+  have hb := C03.sec_unpack_spec b wb []
+  rw [h, hlen, hb] at ha
+  exact (Except.ok.inj ha).symm
+
+/-- well-formedness of an arbitrary report object as far as `==` needs it -/
+def WFEq (s : S1Tm) : Prop := C01.WF s.tm.sph ∧ C03.WFSec s.tm.sec ∧ WFReq s.params.reqId
+
+/-- **`==` on reports is equality of all fields** — telemetry header fields, timestamp, source
+    data, request id (by its 32 bits), step id and failure notice *by value* — so the decoded report
+    compares equal to the original, also for failure reports -/
+theorem C15_report_eq_iff (a b : S1Tm) (wa : WFEq a) (wb : WFEq b) : a.beq b = true ↔ a = b := by
+  obtain ⟨ha1, ha2, ha3⟩ := wa
+  obtain ⟨hb1, hb2, hb3⟩ := wb
+  obtain ⟨⟨sa, ca, da⟩, ⟨ra, sta, fa⟩⟩ := a
+  obtain ⟨⟨sb, cb, db⟩, ⟨rb, stb, fb⟩⟩ := b
+  simp only at ha1 ha2 ha3 hb1 hb2 hb3
+  have hreq : ra.beq rb = true ↔ ra = rb := by
+    have := C15_reqid_eq ra rb ha3 hb3
+    exact this.1.trans this.2
+  simp only [S1Tm.beq, Tm.beq, VParams.beq, pyEq, C01.C01_pack_exact sa ha1, C01.C01_pack_exact sb hb1,
+    C03.sec_pack ca ha2, C03.sec_pack cb hb2, Bool.and_eq_true, decide_eq_true_eq, hreq,
+    optBeq_iff Pfe.beq C15_field_eq, optBeq_iff FailureNotice.beq C15_notice_eq,
+    S1Tm.mk.injEq, Tm.mk.injEq, VParams.mk.injEq]
+  constructor
+  · rintro ⟨⟨⟨h1, h2⟩, h3⟩, ⟨h4, h5⟩, h6⟩
+    exact ⟨⟨sph_octets_inj sa sb ha1 hb1 h1, sec_octets_inj ca cb ha2 hb2 h2, h3⟩, h4, h5, h6⟩
+  · rintro ⟨⟨h1, h2, h3⟩, h4, h5, h6⟩
+    subst h1 h2 h3 h4 h5 h6
+    exact ⟨⟨⟨rfl, rfl⟩, rfl⟩, ⟨rfl, rfl⟩, rfl⟩
+
+/-- … and **the decoded report compares equal to the original** (both directions of `==`) -/
+theorem C15_report_eq (apid sub count ver ref dst : Nat) (ts : Bytes) (p : VParams)
+    (ha : apid < 2048) (hc : count < 16384) (hsub : 1 ≤ sub ∧ sub ≤ 8) (hv : ver < 8) (hr : ref < 16)
+    (hd : dst < 65536) (hl : ts.length + (Spec.sourceData p).length ≤ 65527)
+    (wp : WFParams p) (ex : ExactParams p) (hm : Matches p sub) (sb eb : Nat)
+    (hsb : ∀ s, p.stepId = some s → sb = fieldWidth s)
+    (heb : ∀ n, p.failure = some n → eb = fieldWidth n.code) (rest : Bytes) :
+    ∃ s', S1Tm.unpack (Spec.reportOctets apid sub count ver ref dst ts p ++ rest) ts.length sb eb = .ok s' ∧
+      s'.beq ⟨Spec.reportTm apid sub count ver ref dst ts p, p⟩ = true ∧
+      (S1Tm.mk (Spec.reportTm apid sub count ver ref dst ts p) p).beq s' = true := by
+  have wf := reportTm_wf apid sub count ver ref dst ts p ha hc (by omega) hv hr hd hl
+  have we : WFEq ⟨Spec.reportTm apid sub count ver ref dst ts p, p⟩ := ⟨wf.1, wf.2.1, wp.1⟩
+  refine ⟨_, C15_report_roundtrip apid sub count ver ref dst ts p ha hc hsub hv hr hd hl wp ex hm sb eb hsb heb rest,
+    (C15_report_eq_iff _ _ we we).2 rfl, (C15_report_eq_iff _ _ we we).2 rfl⟩
+
+/-- **end to end**, in terms of the constructor and `pack`/`unpack` only: the report built for a
+    request id packs, carries the prescribed source data, and decoding the packed octets (followed by
+    anything) with matching widths gives back the very same report, which compares equal to itself
+    under `==` — every subservice 1..8, every width combination, every timestamp length -/
+theorem C15_report_end_to_end (apid sub count ver ref dst : Nat) (ts : Bytes) (p : VParams)
+    (ha : apid < 2048) (hc : count < 16384) (hsub : 1 ≤ sub ∧ sub ≤ 8) (hv : ver < 8) (hr : ref < 16)
+    (hd : dst < 65536) (hl : ts.length + (Spec.sourceData p).length ≤ 65527)
+    (wp : WFParams p) (ex : ExactParams p) (hm : Matches p sub) (sb eb : Nat)
+    (hsb : ∀ s, p.stepId = some s → sb = fieldWidth s)
+    (heb : ∀ n, p.failure = some n → eb = fieldWidth n.code) (rest : Bytes) :
+    ∃ s raw, S1Tm.new (apid : Int) (sub : Int) ts (some p) (count : Int) ver ref dst = .ok s ∧
+      s.pack = .ok raw ∧ s.tm.sourceData = Spec.sourceData p ∧ s.params = p ∧
+      S1Tm.unpack (raw ++ rest) ts.length sb eb = .ok s ∧ (S1Tm.unpack (raw ++ rest) ts.length sb eb >>= S1Tm.pack) = .ok raw ∧
+      s.beq s = true := by
+  obtain ⟨h1, h2, h3⟩ := C15_report_layout apid sub count ver ref dst ts p ha hc (by omega) (by omega) wp hm
+  obtain ⟨h4, _⟩ := h3 hv hr hd hl
+  have wf := reportTm_wf apid sub count ver ref dst ts p ha hc (by omega) hv hr hd hl
+  have we : WFEq ⟨Spec.reportTm apid sub count ver ref dst ts p, p⟩ := ⟨wf.1, wf.2.1, wp.1⟩
+  exact ⟨_, _, h1, h4, h2, rfl,
+    C15_report_roundtrip apid sub count ver ref dst ts p ha hc hsub hv hr hd hl wp ex hm sb eb hsb heb rest,
+    C15_report_repack apid sub count ver ref dst ts p ha hc hsub hv hr hd hl wp ex hm sb eb hsb heb rest,
+    (C15_report_eq_iff _ _ we we).2 rfl⟩
+
+/-- what the decoder guarantees for ANY accepted octet string, with any configured widths: the
+    telemetry part is what the generic decoder returns, the subservice is one of 1..8, the decoded
+    parameter set has the shape of that subservice, and the request id is the first four octets of
+    the source data -/
+theorem C15_unpack_sound (d : Bytes) (n sb eb : Nat) (s : S1Tm) (h : S1Tm.unpack d n sb eb = .ok s) :
+    Tm.unpack d n = .ok s.tm ∧ (1 ≤ s.tm.sec.subservice ∧ s.tm.sec.subservice ≤ 8) ∧
+    Matches s.params s.tm.sec.subservice ∧ 4 ≤ s.tm.sourceData.length ∧
+    ReqId.unpack s.tm.sourceData = .ok s.params.reqId := by
+  unfold S1Tm.unpack at h
+  cases ht : Tm.unpack d n with
+  | error e => simp [ht, bind, Except.bind] at h
+  | ok tm =>
+    simp only [ht, bind, Except.bind] at h
+    unfold unpackRaw at h
+    by_cases h4 : tm.sourceData.length < 4
+    · simp [h4, throw, throwThe, MonadExceptOf.throw, bind, Except.bind] at h
+    · simp only [h4, ↓reduceIte, bind, Except.bind] at h
+      have hreq : ReqId.unpack (slice tm.sourceData 0 4) = ReqId.unpack tm.sourceData := by
+        have : slice tm.sourceData 0 4 = tm.sourceData.take 4 := by simp [slice]
+        rw [this]; exact ReqId.unpack_take _ (by omega)
+      rw [hreq] at h
+      cases hr : ReqId.unpack tm.sourceData with
+      | error e => simp [hr] at h
+      | ok req =>
+        simp only [hr] at h
+        simp only [throw, throwThe, MonadExceptOf.throw, pure, Except.pure] at h
+        repeat' split at h
+        all_goals
+          first
+          | (cases h; done)
+          | (have hs := (Except.ok.inj h).symm
+             subst hs
+             refine ⟨rfl, ?_, ?_, by simp only; omega, hr⟩
+             · simp only; omega
+             · unfold Matches
+               simp
+               omega)
+
+/-- any octet string, any timestamp length, any configured widths: the report decoder fails only
+    with documented errors (ValueError family, CRC error) -/
+theorem C15_unpack_documented (d : Bytes) (n sb eb : Nat) : Documented (S1Tm.unpack d n sb eb) := by
+  unfold S1Tm.unpack
+  exact Documented.bind (C03.C03_documented d n) (fun tm _ => unpackRaw_documented tm sb eb)
+
+-- non-vacuity: a step-failure report with a 2-octet step id, a 4-octet error code and failure data,
+-- request id with version bits 5; a completion-success report; a mismatching set
+example : WFParams ⟨⟨5, ⟨1, 1, 0x7AB⟩, ⟨2, 0x2BCD⟩⟩, some ⟨16, 0xBEEF⟩, some ⟨⟨32, 0xDEADBEEF⟩, [1, 2, 3]⟩⟩ ∧
+    ExactParams ⟨⟨5, ⟨1, 1, 0x7AB⟩, ⟨2, 0x2BCD⟩⟩, some ⟨16, 0xBEEF⟩, some ⟨⟨32, 0xDEADBEEF⟩, [1, 2, 3]⟩⟩ ∧
+    Matches ⟨⟨5, ⟨1, 1, 0x7AB⟩, ⟨2, 0x2BCD⟩⟩, some ⟨16, 0xBEEF⟩, some ⟨⟨32, 0xDEADBEEF⟩, [1, 2, 3]⟩⟩ 6 := by
+  refine ⟨⟨by decide, ?_, ?_⟩, ⟨?_, ?_⟩, by decide⟩
+  · intro s h; cases h; decide
+  · intro n h; cases h; unfold WFNotice; decide
+  · intro s h; cases h; decide
+  · intro n h; cases h; decide
+
+example : Spec.sourceData ⟨⟨5, ⟨1, 1, 0x7AB⟩, ⟨2, 0x2BCD⟩⟩, some ⟨16, 0xBEEF⟩, some ⟨⟨32, 0xDEADBEEF⟩, [1, 2, 3]⟩⟩
+    = [0xBF, 0xAB, 0xAB, 0xCD, 0xBE, 0xEF, 0xDE, 0xAD, 0xBE, 0xEF, 1, 2, 3] := by decide
+
+example : Matches ⟨ReqId.empty, none, none⟩ 7 ∧ ¬ Matches ⟨ReqId.empty, some ⟨8, 1⟩, none⟩ 7 ∧
+    ¬ Matches ⟨ReqId.empty, none, none⟩ 8 := by decide
 end SpVerif.Props.C15
